@@ -125,7 +125,7 @@ def compare_node(ctx, job, m, o, tag, failed):
 # top-level runner.map
 # ---------------------------------------------------------------------------------------------
 
-def real_map(job, k=None, schedule=None):
+def real_map(job, k=None, schedule=None, event_processors=None):
     """Call runner.map on the real code.  Returns {'results': [obs...]} or {'raised': err}."""
     rt = build.Runtime(job["prog"])
     with warnings.catch_warnings():
@@ -134,6 +134,8 @@ def real_map(job, k=None, schedule=None):
     values = build.provided_dict(job)
     kw = dict(map_over=list(job["map"]["over"]), map_mode=job["map"]["mode"], error_handling=job["map"]["eh"],
               on_internal_override="ignore")
+    if event_processors is not None:
+        kw["event_processors"] = event_processors
     ctl = None
     with warnings.catch_warnings():
         warnings.simplefilter("ignore")
